@@ -4,40 +4,56 @@ spec  : Disentangle.tla (windows of wannierise on top of Bands.SelectWindow; abs
         (window selection step by step + InitU/Update/Finalize, all small sorted energy arrays / window edges / explicit
         frozen band / num_wann), DisentangleRec.tla (records of real runs)
 bind  : spec -> code : TLC states are grouped into real wannierise calls on synthetic WannierData (integer energies in
-        units of 1/256 eV, smooth random overlaps, random projections); the boolean masks handed by wannierise to
-        Wannierizer.add_kpoint are compared exactly with the specification's frozen/free sets, the AssertionError with
-        the specification's assert_failed states.
-        code -> spec : full runs (init amn/random/restart, 0..5 iterations, localise on/off, mixing) are recorded per
-        k-point (masks + every gauge matrix projected to support/rank/residual buckets) and validated by TLC.
+        units of 1/256 eV, smooth random overlaps, random projections).  Statement level: inputs whose frozen states lie
+        outside the outer window must be refused (any exception), all others accepted.  When the internal call
+        Wannierizer.add_kpoint can be observed, the masks handed to it must freeze at least the specification's frozen
+        states and select nothing outside the specification's outer window; whether they are *equal* to the
+        specification's sets is reported as information.
+        code -> spec : full runs (init amn/random/restart, 0..5 iterations, localise on/off, mixing of Z and of U,
+        symmetrize_Z off, explicit frozen bands as list and as per-k dict) are recorded per k-point (final v_matrix and, when
+        observable, every intermediate gauge matrix, projected to support/rank/residual buckets against the specification's
+        frozen/outer sets) and validated by TLC.
 """
 import copy
+import os
 import random
 import numpy as np
 
 from .. import tlc, ftable
-from ..common import Report, MachineryError, seed, quiet
+from ..common import Report, MachineryError, seed, quiet, WORK
+from . import _symcommon as sc
 
 PROPS = {
     "C24": dict(level="exploration",
-                technique="TLC exhaustive on Disentangle/MC_Disentangle (window selection of wannierise as steps over Bands.SelectWindow, "
-                          "abstract gauge machine) + replay of the TLC states' windows on the real wannierise (masks compared exactly) + "
-                          "TLC validation of recorded real runs on synthetic overlaps",
-                text="Exact: for every sorted integer energy array (<= 4 bands, degenerate and non-degenerate gaps), every window "
-                     "quadruple at/above band energies, explicit frozen band and num_wann, the frozen/free masks used inside wannierise "
-                     "equal the specification's (frozen window excludes, outer window includes multiplets cut by an edge; frozen within "
-                     "outer; free = outer minus frozen) and the assertion fires exactly when the specification says. Numeric: every "
-                     "gauge matrix of real runs (initial, after each iteration, final v_matrix) has orthonormal columns, zero rows "
-                     "outside the outer window and contains the frozen unit vectors in its span (1e-8; observed 1e-15).",
+                technique="TLC exhaustive on Disentangle/MC_Disentangle (window selection of wannierise as steps over Bands.SelectWindow; the "
+                          "gauge part of the model is a bookkeeping device and is not counted) + replay of the TLC states' windows on the real "
+                          "wannierise + TLC validation of recorded real runs on synthetic overlaps",
+                text="Exact: for every sorted integer energy array (quick <= 3 bands and a sample of 300 window settings, thorough <= 4 bands, "
+                     "all; degenerate and non-degenerate gaps), every window quadruple at/above band energies, explicit frozen band and "
+                     "num_wann, wannierise refuses exactly the inputs whose frozen states are not inside the outer window, and the masks it "
+                     "uses freeze every state of the frozen window and select nothing outside the outer window (multiplets cut by an edge: "
+                     "dropped from the frozen, added to the outer window). Numeric: every gauge matrix of real runs (final v_matrix; "
+                     "initial and after each iteration when observable) has orthonormal columns, zero rows outside the outer window and "
+                     "contains the frozen unit vectors in its span (1e-8; observed 1e-15).",
                 note="exact in TLA+: window semantics, nesting, multiplets, feasibility |frozen| <= num_wann <= |outer| (named "
-                     "precondition Feasible; infeasible inputs are not run). numeric: isometry / span / zero rows of U(k), measured on "
-                     "the implementation's output and bucketed to integers before TLC sees them. Overlaps are synthetic (a smooth "
-                     "random tight-binding model), eigenvalues are chosen by the specification independently of them; no site symmetry.",
+                     "precondition Feasible; infeasible inputs are not run). The InitU/Update/Finalize part of MC_Disentangle sets "
+                     "support/rank/captured by construction: it only carries num_wann to the replay and proves nothing, its states are "
+                     "not counted. numeric: isometry / span / zero rows of U(k), measured on the implementation's output against the "
+                     "specification's frozen/outer sets and bucketed to integers before TLC sees them. Overlaps are synthetic (a smooth "
+                     "random tight-binding model on a 2x2x1 grid), eigenvalues are chosen by the specification independently of them. Not "
+                     "covered: sitesym=True (needs symmetry-adapted overlaps, band representations and a SymmetrizerSAWF; no cheap robust "
+                     "synthetic model), parallel=True, 3-D grids. Equality of the internal masks with the specification's sets, multiplet "
+                     "integrity and the order of internal calls are reported as information only.",
                 ref="DESIGN.md 3.5, 3.7"),
 }
 
 UNIT = 1.0 / 256
 INV = ["WindowsMeaning", "FrozenInOuter", "FreePartition", "NeverSplit", "NestedNeverFails", "AssertMeaning", "FeasibleMeaning", "GaugeInvariant"]
+WINDOW_ACTIONS = ["Init", "SelectFrozen", "SelectOuter", "AddFrozenStates", "ComputeFree"]
 MP = (2, 2, 1)
+# clauses of DisentangleRec that are not demanded by the statement (the implementation's present choice) / harness-vs-spec
+INFO_CLAUSES = ("frozen_equals_spec", "free_equals_spec", "never_split", "event_order")
+HARNESS_CLAUSES = ("harness_sets", "sorted", "feasible_if_ran")
 
 
 class _Stop(Exception):
@@ -57,6 +73,7 @@ class World:
             self.bk = BKVectors.from_kpoints(recip_lattice=self.rec, mp_grid=MP, kpoints_red=self.kpts)
         self.NK = len(self.kpts)
         self._mmn = {}
+        self.seedname = os.path.join(WORK, f"c24_p{os.getpid()}", "none")      # never written (savechk=False)
 
     def mmn(self, nb, variant=0):
         key = (nb, variant)
@@ -79,7 +96,7 @@ class World:
         from wannierberri.w90files.mmn import MMN
         nb = len(Elist[0])
         wd = WannierData()
-        wd.seedname = "/verif/.work/c24/none"
+        wd.seedname = self.seedname
         wd.set_file("bkvec", self.bk)
         wd.set_file("eig", EIG(data=[np.array(E, dtype=float) * UNIT for E in Elist]))
         wd.set_file("mmn", MMN(data=[m.copy() for m in self.mmn(nb, variant)]))
@@ -87,74 +104,134 @@ class World:
         return wd
 
 
-def run_wannierise(wd, win, extra, stop, **kw):
-    """runs the real wannierise with a recording Wannierizer; returns the log (masks per k, events, asserted)"""
+def run_wannierise(rep, wd, win, frozen_states, stop, detail, **kw):
+    """runs the real wannierise; where possible with a recording Wannierizer (an internal name: every use is guarded).
+    Returns the log: masks per k (as handed to add_kpoint), events (intermediate gauge matrices), final (v_matrix per k),
+    rejected (exception type if the call was refused before any k-point was set up), failed (a violation was recorded),
+    hook (the recording class was reached)"""
+    import warnings
     import wannierberri.wannierisation.wannierise as wmod
-    from wannierberri.wannierisation.wannierizer import Wannierizer
-    log = dict(masks=[], events=[], asserted=False, final=None)
+    log = dict(masks=[], events=[], rejected=None, final=None, failed=False, hook=False, hook_broken=None)
+    old = getattr(wmod, "Wannierizer", None)
+    if old is not None:
+        class Recording(old):
+            def add_kpoint(self, *args, **kwargs):
+                log["hook"] = True
+                try:
+                    log["masks"].append((np.array(kwargs["frozen"], dtype=bool).copy(), np.array(kwargs["free"], dtype=bool).copy()))
+                except Exception as ex:
+                    log["hook_broken"] = f"add_kpoint: {type(ex).__name__}: {ex}"
+                if not stop:
+                    return super().add_kpoint(*args, **kwargs)
 
-    class Recording(Wannierizer):
-        def add_kpoint(self, **kwargs):
-            log["masks"].append((np.array(kwargs["frozen"], dtype=bool).copy(), np.array(kwargs["free"], dtype=bool).copy()))
-            if not stop:
-                super().add_kpoint(**kwargs)
+            def get_U_opt_full(self, *args, **kwargs):
+                if stop:
+                    raise _Stop()
+                U = super().get_U_opt_full(*args, **kwargs)
+                try:
+                    log["events"].append(("init", [np.array(u).copy() for u in U]))
+                except Exception as ex:
+                    log["hook_broken"] = f"get_U_opt_full: {type(ex).__name__}: {ex}"
+                return U
 
-        def get_U_opt_full(self):
-            if stop:
-                raise _Stop()
-            U = super().get_U_opt_full()
-            log["events"].append(("init", [np.array(u).copy() for u in U]))
-            return U
-
-        def update_all(self, U_neigh, **kwargs):
-            U = super().update_all(U_neigh, **kwargs)
-            log["events"].append(("update", [np.array(u).copy() for u in U]))
-            return U
-
+            def update_all(self, *args, **kwargs):
+                U = super().update_all(*args, **kwargs)
+                try:
+                    log["events"].append(("update", [np.array(u).copy() for u in U]))
+                except Exception as ex:
+                    log["hook_broken"] = f"update_all: {type(ex).__name__}: {ex}"
+                return U
+        wmod.Wannierizer = Recording
+    elif stop:
+        log["hook_broken"] = "wannierise.Wannierizer is gone"
+        return log
     flo, fhi, olo, ohi = win
-    old = wmod.Wannierizer
-    wmod.Wannierizer = Recording
     try:
-        import warnings
         with quiet(), warnings.catch_warnings():
             warnings.simplefilter("ignore")
             wmod.wannierise(wd, froz_min=flo * UNIT, froz_max=fhi * UNIT, outer_min=olo * UNIT, outer_max=ohi * UNIT,
-                            frozen_states=list(extra), parallel=False, savechk=False, print_progress_every=10**6, **kw)
-        log["final"] = [np.array(wd.chk.v_matrix[ik]).copy() for ik in range(len(log["masks"]))]
+                            frozen_states=frozen_states, parallel=False, savechk=False, print_progress_every=10**6, **kw)
+        nk = wd.mmn.NK
+        ok, fin = sc.private(rep, "wandata.chk.v_matrix", lambda: [np.array(wd.chk.v_matrix[ik]).copy() for ik in range(nk)])
+        log["final"] = fin if ok else None
     except _Stop:
         pass
-    except AssertionError as ex:
-        if "Frozen bands should be included" in str(ex):
-            log["asserted"] = True
-        else:
+    except MachineryError:
+        raise
+    except Exception as ex:
+        where = sc.library_site(ex)
+        if where is None:
             raise
+        if not log["masks"] and not log["events"]:
+            log["rejected"] = type(ex).__name__          # refused before any k-point was set up (any exception class / text)
+        else:
+            log["failed"] = True
+            rep.violation(f"raises:wannierise:{type(ex).__name__}", dict(detail, error=f"{type(ex).__name__}: {ex}"[:400], raised_in=where))
     finally:
-        wmod.Wannierizer = old
+        if old is not None:
+            wmod.Wannierizer = old
     return log
 
 
-def project(U, frozen, outer_rows):
-    """gauge matrix -> integers (support, rank, buckets)"""
-    from ._symcommon import bucket
+def project(U, frozen_rows, outer_rows):
+    """gauge matrix -> integers (support, rank, buckets) against the given frozen / outer band sets"""
     nb, nw = U.shape
     gram = float(np.abs(U.conj().T @ U - np.eye(nw)).max())
     P = U @ U.conj().T
-    fr = np.where(frozen)[0]
+    fr = sorted(frozen_rows)
     capt = float(np.abs(P[fr, :] - np.eye(nb)[fr, :]).max()) if len(fr) else 0.0
     outside = [b for b in range(nb) if b not in outer_rows]
     out = float(np.abs(U[outside, :]).max()) if outside else 0.0
     sv = np.linalg.svd(U, compute_uv=False)
     return dict(support=[int(b) for b in range(nb) if np.abs(U[b]).max() > 1e-12], rank=int(np.sum(sv > 0.5)),
-                gram=bucket(gram), capt=bucket(capt), out=bucket(out)), max(gram, capt, out)
+                gram=sc.bucket(gram), capt=sc.bucket(capt), out=sc.bucket(out)), max(gram, capt, out)
+
+
+def _select(E, lo, hi, incl, th=3):
+    """harness-side window selection, used to pick feasible num_wann for random inputs and as the row sets of the numeric
+    residuals; it is compared with the specification on every TLC state (check_select) and by TLC on every record
+    (clause harness_sets), so the verdict stays with the specification"""
+    n = len(E)
+    inside = {j for j in range(n) if lo <= E[j] <= hi}
+
+    def multiplet(j):
+        a = j
+        while a > 0 and E[a] - E[a - 1] < th:
+            a -= 1
+        b = j
+        while b < n - 1 and E[b + 1] - E[b] < th:
+            b += 1
+        return set(range(a, b + 1))
+    if incl:
+        return set().union(*[multiplet(j) for j in inside]) if inside else set()
+    return {j for j in inside if multiplet(j) <= inside}
+
+
+def check_select(states):
+    for d in states:
+        flo, fhi, olo, ohi = d["win"]
+        if (_select(d["E"], flo, fhi, False) | set(d["extra"])) != set(d["frozen"]) or _select(d["E"], olo, ohi, True) != set(d["outer"]):
+            raise MachineryError(f"the harness's window helper disagrees with the specification on E={d['E']} windows={d['win']} extra={d['extra']}")
 
 
 def check(pid, tier):
     rep = Report(pid, tier, "exploration")
+    try:
+        return _check(rep, tier)
+    except Exception:
+        if rep.violations:
+            rep.finish()
+        raise
+    finally:
+        sc.cleanup(keep=bool(rep.violations))
+
+
+def _check(rep, tier):
     thorough = tier == "thorough"
     rng = random.Random(seed() * 7919 + 24)
     nprs = np.random.RandomState(seed() * 31 + 24)
     rep.rule("TLC enumerates every energy array / window quadruple / explicit frozen band / num_wann within the constants; a case = the "
-             "window masks of one TLC state compared on the real wannierise (grouped into k-points of one call), or one k-point of a "
+             "windows of one TLC state run on the real wannierise (grouped into k-points of one call), or one k-point of a "
              "recorded full run validated by TLC; distinct by (E, windows, extra, nw, run settings)")
     rep.assume("energies and window edges are integer multiples of 1/256 eV, so the comparisons inside select_window_degen are exact and "
                "thresh = 1e-2 eV means integer gap < 3")
@@ -163,12 +240,15 @@ def check(pid, tier):
     nbmax, gaps = (4, "{0, 2, 3}") if thorough else (3, "{0, 2, 3}")
     cfg = lambda variant: (f"SPECIFICATION Spec\nCONSTANTS\n  NB = {nbmax}\n  GAPS = {gaps}\n  MAXIT = 1\n  Variant = \"{variant}\"\n" +
                            "".join(f"INVARIANT {i}\n" for i in INV) + "CHECK_DEADLOCK FALSE\n")
-    st = ftable.enumerate_states("MC_Disentangle.tla", cfg("code"), "c24_mc")
+    st = ftable.enumerate_states("MC_Disentangle.tla", cfg("code"), sc.uniq("c24_mc"), workers=sc.WORKERS)
     if ftable.spec_violation(rep, st, "c24_mc"):
         return rep.finish()
     tlc.check_not_vacuous(st, ["SelectFrozen", "SelectOuter", "AddFrozenStates", "ComputeFree", "InitU", "Update", "Finalize"], "c24_mc")
-    rep.add_tlc("c24_mc", st)
-    st0 = tlc.run_tlc("MC_Disentangle.tla", cfg("swapped"), "c24_mc_swapped", timeout=900)
+    # only the window part of the model is model checking of C24; the gauge bookkeeping states are not counted
+    wcov = {a: st["coverage"].get(a, {}) for a in WINDOW_ACTIONS}
+    rep.add_tlc("c24_mc", dict(st, distinct=sum(c.get("distinct", 0) for c in wcov.values()), generated=sum(c.get("generated", 0) for c in wcov.values())))
+    rep.part("c24_mc", all_states_of_the_model=st["distinct"], counted="states produced by " + ", ".join(WINDOW_ACTIONS))
+    st0 = tlc.run_tlc("MC_Disentangle.tla", cfg("swapped"), sc.uniq("c24_mc_swapped"), workers=sc.WORKERS, timeout=1500)
     if not st0.get("violation"):
         raise MachineryError("sensitivity self-test failed: exchanging the include_degen flags of the two windows must violate an invariant")
     rep.part("sensitivity", swapped_flags_violate=st0["violation"][1])
@@ -180,107 +260,158 @@ def check(pid, tier):
         d = dict(E=list(s["E"]), win=(s["flo"], s["fhi"], s["olo"], s["ohi"]), extra=tuple(sorted(j - 1 for j in s["extra"])),
                  frozen=sorted(j - 1 for j in s["frozen"]), free=sorted(j - 1 for j in s["free"]), outer=sorted(j - 1 for j in s["outer"]), nw=s["nw"])
         {"ready": ready, "assert_failed": failed, "done": done}[s["pc"]].append(d)
+    full_key = lambda d: (len(d["E"]), d["E"], d["win"], d["extra"], d["nw"])
+    for lst in (ready, failed, done):       # the dump order of TLC is not deterministic
+        lst.sort(key=full_key)
     if not ready or not failed or not done:
         raise MachineryError("TLC dump lacks ready / assert_failed / done states")
+    check_select(ready + done)
 
     world = World(nprs)
     NK = world.NK
 
-    # ---------------- spec -> code : window masks of TLC states on the real wannierise
-    groups = {}
-    for d in ready:
-        groups.setdefault((len(d["E"]), d["win"], d["extra"]), []).append(d)
-    keys = sorted(groups)
-    nrun = len(keys) if thorough else min(len(keys), 500)
+    # ---------------- is the internal hook (Wannierizer.add_kpoint kwargs frozen / free) available?
+    d0 = next((d for d in done if d["frozen"] and d["free"]), done[0])
+    probe = run_wannierise(rep, world.wandata([d0["E"]] * NK, nw=d0["nw"]), d0["win"], list(d0["extra"]), False, dict(probe=True), num_iter=1)
+    hooked = probe["hook"] and not probe["hook_broken"] and len(probe["masks"]) == NK and len(probe["events"]) >= 1
+    if not hooked:
+        rep.part("skipped_private", wannierizer_hook=probe["hook_broken"] or f"hook reached: {probe['hook']}, masks {len(probe['masks'])}, events {len(probe['events'])}")
+
+    # ---------------- spec -> code : windows of TLC states on the real wannierise
     classes = dict(frozen_cut=0, outer_grown=0, extra=0, empty_frozen=0, nonempty_frozen=0)
-    nmask = 0
-    for key in (keys if nrun == len(keys) else rng.sample(keys, nrun)):
-        nb, win, extra = key
-        members = groups[key]
-        for c0 in range(0, len(members), NK):
-            batch = [members[(c0 + n) % len(members)] for n in range(NK)]
-            wd = world.wandata([d["E"] for d in batch], nw=1)
-            log = run_wannierise(wd, win, extra, stop=True, num_iter=0)
-            if log["asserted"] or len(log["masks"]) != NK:
-                rep.violation("wannierise:windows:unexpected_assert", dict(E=[d["E"] for d in batch], windows=win, extra=extra, unit=UNIT,
-                                                                            asserted=log["asserted"], masks_seen=len(log["masks"])))
-                continue
-            for d, (fz, fr) in zip(batch, log["masks"]):
-                nmask += 1
-                rep.case(("mask", tuple(d["E"]), win, extra), nontrivial=True)
-                got_fz, got_fr = [int(x) for x in np.where(fz)[0]], [int(x) for x in np.where(fr)[0]]
-                inside0 = [j for j, e in enumerate(d["E"]) if win[0] <= e <= win[1]]
-                classes["frozen_cut"] += int(len(d["frozen"]) < len(inside0) and not extra)
-                classes["outer_grown"] += int(len(d["outer"]) > len([e for e in d["E"] if win[2] <= e <= win[3]]))
-                classes["extra"] += int(bool(extra))
-                classes["empty_frozen" if not d["frozen"] else "nonempty_frozen"] += 1
-                if got_fz != d["frozen"]:
-                    rep.violation("wannierise:windows:frozen", dict(E=d["E"], windows_flo_fhi_olo_ohi=win, extra=extra, unit=UNIT,
-                                                                    expected_frozen=d["frozen"], got_frozen=got_fz))
-                if got_fr != d["free"]:
-                    rep.violation("wannierise:windows:free", dict(E=d["E"], windows_flo_fhi_olo_ohi=win, extra=extra, unit=UNIT,
-                                                                  expected_free=d["free"], got_free=got_fr))
-                if nmask <= 2:
-                    rep.sample(dict(E=d["E"], windows_flo_fhi_olo_ohi=win, extra=extra, frozen=got_fz, free=got_fr))
-    for k, v in classes.items():
-        if v == 0:
-            raise MachineryError(f"window replay: class {k} never occurred")
-    nfail = 0
+    info = dict(masks_equal=0, masks_differ=0)
+    nmask = nrun = nfail = 0
+    if hooked:
+        groups = {}
+        for d in ready:
+            groups.setdefault((len(d["E"]), d["win"], d["extra"]), []).append(d)
+        keys = sorted(groups)
+        nrun = len(keys) if thorough else min(len(keys), 300)
+        for key in (keys if nrun == len(keys) else rng.sample(keys, nrun)):
+            nb, win, extra = key
+            members = groups[key]
+            for c0 in range(0, len(members), NK):
+                batch = [members[(c0 + n) % len(members)] for n in range(NK)]
+                detail = dict(E=[d["E"] for d in batch], windows_flo_fhi_olo_ohi=win, extra=extra, unit=UNIT)
+                log = run_wannierise(rep, world.wandata([d["E"] for d in batch], nw=1), win, list(extra), True, detail, num_iter=0)
+                if log["failed"]:
+                    continue
+                if log["rejected"]:
+                    rep.violation("wannierise:windows:rejected", dict(detail, exception=log["rejected"],
+                                                                      what="frozen states lie inside the outer window, yet the call was refused"))
+                    continue
+                if len(log["masks"]) != NK:
+                    raise MachineryError(f"the recording Wannierizer saw {len(log['masks'])} k-points instead of {NK} (internal chunking changed?)")
+                for d, (fz, fr) in zip(batch, log["masks"]):
+                    nmask += 1
+                    rep.case(("mask", tuple(d["E"]), win, extra), nontrivial=True)
+                    got_fz, got_fr = {int(x) for x in np.where(fz)[0]}, {int(x) for x in np.where(fr)[0]}
+                    inside0 = [j for j, e in enumerate(d["E"]) if win[0] <= e <= win[1]]
+                    classes["frozen_cut"] += int(len(d["frozen"]) < len(inside0) and not extra)
+                    classes["outer_grown"] += int(len(d["outer"]) > len([e for e in d["E"] if win[2] <= e <= win[3]]))
+                    classes["extra"] += int(bool(extra))
+                    classes["empty_frozen" if not d["frozen"] else "nonempty_frozen"] += 1
+                    if not set(d["frozen"]) <= got_fz:
+                        rep.violation("wannierise:windows:frozen_not_frozen", dict(E=d["E"], windows_flo_fhi_olo_ohi=win, extra=extra, unit=UNIT,
+                                                                                   spec_frozen=d["frozen"], got_frozen=sorted(got_fz)))
+                    if not (got_fz | got_fr) <= set(d["outer"]):
+                        rep.violation("wannierise:windows:outside_outer", dict(E=d["E"], windows_flo_fhi_olo_ohi=win, extra=extra, unit=UNIT,
+                                                                               spec_outer=d["outer"], got_frozen=sorted(got_fz), got_free=sorted(got_fr)))
+                    info["masks_equal" if (sorted(got_fz) == d["frozen"] and sorted(got_fr) == d["free"]) else "masks_differ"] += 1
+                    if nmask <= 2:
+                        rep.sample(dict(E=d["E"], windows_flo_fhi_olo_ohi=win, extra=extra, frozen=sorted(got_fz), free=sorted(got_fr)))
+        for k, v in classes.items():
+            if v == 0 and not rep.violations:
+                raise MachineryError(f"window replay: class {k} never occurred")
+    # inputs that must be refused (needs no hook if the refusal comes before any computation; with the hook the run stops early)
     for d in (failed if thorough else rng.sample(failed, min(len(failed), 60))):
-        wd = world.wandata([d["E"]] * NK, nw=1)
-        log = run_wannierise(wd, d["win"], d["extra"], stop=True, num_iter=0)
+        nw1 = max(1, len(set(d["frozen"])))
+        log = run_wannierise(rep, world.wandata([d["E"]] * NK, nw=nw1), d["win"], list(d["extra"]), hooked, dict(E=d["E"], windows=d["win"], extra=d["extra"]), num_iter=0)
         rep.case(("assert", tuple(d["E"]), d["win"], d["extra"]))
         nfail += 1
-        if not log["asserted"]:
-            rep.violation("wannierise:windows:missing_assert", dict(E=d["E"], windows_flo_fhi_olo_ohi=d["win"], extra=d["extra"], unit=UNIT,
-                                                                     what="frozen bands outside the outer window were accepted"))
-    rep.part("window_replay", masks_compared=nmask, calls=nrun, assert_cases=nfail, classes=classes)
+        if not log["rejected"] and not log["failed"]:
+            rep.violation("wannierise:windows:not_refused", dict(E=d["E"], windows_flo_fhi_olo_ohi=d["win"], extra=d["extra"], unit=UNIT,
+                                                                  what="frozen states outside the outer window were accepted"))
+    rep.part("window_replay", masks_compared=nmask, calls=nrun, refusal_cases=nfail, classes=classes, information=info)
 
     # ---------------- code -> spec : full runs recorded and validated by TLC
     recs = []
     maxres = 0.0
     settings = [dict(init="amn", num_iter=0), dict(init="amn", num_iter=1), dict(init="amn", num_iter=3, localise=False),
                 dict(init="amn", num_iter=5, mix_ratio_z=1.0), dict(init="random", num_iter=2), dict(init="restart", num_iter=2),
-                dict(init="amn", num_iter=2, mix_ratio_z=0.3, conv_tol=1e-3, num_iter_converge=1)]
+                dict(init="amn", num_iter=2, mix_ratio_z=0.3, conv_tol=1e-3, num_iter_converge=1),
+                dict(init="amn", num_iter=3, mix_ratio_u=0.5), dict(init="amn", num_iter=2, symmetrize_Z=False),
+                dict(init="amn", num_iter=2, mix_ratio_u=0.7, localise=True, mix_ratio_z=0.5)]
     modes = {}
+    edge = dict(no_free_dimension=0, no_disentanglement=0, nothing_frozen_but_disentangled=0, unequal_frozen_counts=0, per_k_frozen_states=0,
+                mix_ratio_u=0, symmetrize_Z_off=0)
 
-    def full_run(Elist, win, extra, nw, outer_sets, setting):
+    def full_run(Elist, win, extras, nw, frozen_sets, outer_sets, setting, as_dict):
+        """extras: per k-point tuple of explicitly frozen bands; as_dict: hand them over as {ik: [bands]} instead of a list"""
         nonlocal maxres
         wd = world.wandata(Elist, nw=nw, variant=rng.randrange(3))
         kw = dict(setting)
         init = kw.pop("init")
+        fs = {ik: list(e) for ik, e in enumerate(extras) if e} if as_dict else list(extras[0])
+        detail = dict(E=Elist, windows_flo_fhi_olo_ohi=win, frozen_states=fs, num_wann=nw, setting=repr(setting), unit=UNIT)
         if init == "random":
             np.random.seed(rng.randrange(2**31))
             kw["num_wann"] = nw
         if init == "restart":
-            first = run_wannierise(wd, win, extra, stop=False, init="amn", num_iter=1)
-            if first["asserted"]:
+            first = run_wannierise(rep, wd, win, fs, False, detail, init="amn", num_iter=1)
+            if first["rejected"] or first["failed"]:
+                if first["rejected"]:
+                    rep.violation("wannierise:windows:rejected", dict(detail, exception=first["rejected"]))
                 return
-        log = run_wannierise(wd, win, extra, stop=False, init=init, **kw)
+        log = run_wannierise(rep, wd, win, fs, False, detail, init=init, **kw)
+        if log["failed"]:
+            return
+        if log["rejected"]:
+            rep.violation("wannierise:windows:rejected", dict(detail, exception=log["rejected"], what="valid feasible input was refused"))
+            return
+        if log["final"] is None:
+            return
         modes[init] = modes.get(init, 0) + 1
-        evs = log["events"] + ([("final", log["final"])] if log["final"] is not None else [])
+        use_hook = hooked and not log["hook_broken"] and len(log["masks"]) == NK
+        evs = (log["events"] if use_hook else []) + [("final", log["final"])]
+        edge["unequal_frozen_counts"] += int(len({len(f) for f in frozen_sets}) > 1)
+        edge["per_k_frozen_states"] += int(as_dict and bool(fs))
+        edge["mix_ratio_u"] += int(setting.get("mix_ratio_u", 1) != 1)
+        edge["symmetrize_Z_off"] += int(setting.get("symmetrize_Z", True) is False)
         for ik in range(NK):
-            fz, fr = log["masks"][ik]
+            fzs, ous = sorted(frozen_sets[ik]), sorted(outer_sets[ik])
+            edge["no_free_dimension"] += int(len(fzs) == nw)
+            edge["no_disentanglement"] += int(len(ous) == nw)
+            edge["nothing_frozen_but_disentangled"] += int(not fzs and nw < len(ous))
             events = []
             for kind, Us in evs:
-                pr, res = project(Us[ik], fz, outer_sets[ik])
+                pr, res = project(np.asarray(Us[ik]), fzs, set(ous))
                 maxres = max(maxres, res)
                 events.append(dict(kind=kind, **pr))
-            recs.append(dict(E=[int(e) for e in Elist[ik]], flo=win[0], fhi=win[1], olo=win[2], ohi=win[3], extra=[int(x) for x in extra], nw=nw,
-                             asserted=False, frozen=[int(x) for x in np.where(fz)[0]], free=[int(x) for x in np.where(fr)[0]], events=events,
-                             setting=repr(setting)))
-            rep.case(("run", tuple(Elist[ik]), win, tuple(extra), nw, repr(setting)))
+            if use_hook:
+                fz, fr = log["masks"][ik]
+                mfz, mfr = [int(x) for x in np.where(fz)[0]], [int(x) for x in np.where(fr)[0]]
+            else:
+                mfz, mfr = fzs, sorted(set(ous) - set(fzs))
+            recs.append(dict(E=[int(e) for e in Elist[ik]], flo=win[0], fhi=win[1], olo=win[2], ohi=win[3], extra=[int(x) for x in extras[ik]], nw=nw,
+                             asserted=False, frozen=mfz, free=mfr, capt_rows=[int(x) for x in fzs], outer_rows=[int(x) for x in ous], events=events,
+                             setting=repr(setting), hooked=bool(use_hook)))
+            rep.case(("run", tuple(Elist[ik]), win, tuple(extras[ik]), nw, repr(setting), as_dict))
 
-    # (a) from TLC's done states: same windows and num_wann across the k-points of a call
-    gdone = {}
+    # (a) from TLC's done states: same windows and num_wann across the k-points of a call; a fifth of the calls hands different explicit
+    #     frozen bands to different k-points (dict form)
+    gdone, gany = {}, {}
     for d in done:
         gdone.setdefault((len(d["E"]), d["win"], d["extra"], d["nw"]), []).append(d)
+        gany.setdefault((len(d["E"]), d["win"], d["nw"]), []).append(d)
     dkeys = sorted(gdone)
-    for n, key in enumerate(rng.sample(dkeys, min(len(dkeys), 600 if thorough else 70))):
+    for n, key in enumerate(rng.sample(dkeys, min(len(dkeys), 600 if thorough else 60))):
         nb, win, extra, nw = key
-        members = gdone[key]
-        batch = [members[(rng.randrange(len(members)) if m >= len(members) else m)] for m in range(NK)]
-        full_run([d["E"] for d in batch], win, extra, nw, [set(d["outer"]) for d in batch], settings[n % len(settings)])
+        as_dict = n % 5 == 4
+        members = gany[(nb, win, nw)] if as_dict else gdone[key]
+        batch = [members[(rng.randrange(len(members)) if (m >= len(members) or as_dict) else m)] for m in range(NK)]
+        full_run([d["E"] for d in batch], win, [d["extra"] for d in batch], nw, [set(d["frozen"]) for d in batch], [set(d["outer"]) for d in batch],
+                 settings[n % len(settings)], as_dict)
     # (b) larger random inputs (more bands, multiplets cut by every edge)
     nrand = 300 if thorough else 40
     tries = 0
@@ -298,64 +429,76 @@ def check(pid, tier):
         ohi = rng.randint(max(olo, top // 2), top + 1)
         flo = rng.randint(olo, ohi)
         fhi = rng.randint(flo, ohi)
-        extra = ()
-        sel = lambda E, lo, hi, incl: _select(E, lo, hi, incl)
-        fro = [sel(E, flo, fhi, False) for E in Elist]
-        out = [sel(E, olo, ohi, True) for E in Elist]
-        if rng.random() < 0.2:
+        fro = [_select(E, flo, fhi, False) for E in Elist]
+        out = [_select(E, olo, ohi, True) for E in Elist]
+        extras = [()] * NK
+        mode = rng.random()
+        if mode < 0.2:          # the same explicit band at all k-points (list form)
             common = set.intersection(*out)
             if common:
-                extra = (rng.choice(sorted(common)),)
-                fro = [f | set(extra) for f in fro]
+                extras = [(rng.choice(sorted(common)),)] * NK
+        elif mode < 0.4:        # different explicit bands per k-point (dict form), some k-points without
+            extras = [((rng.choice(sorted(o)),) if (o and rng.random() < 0.7) else ()) for o in out]
+        as_dict = 0.2 <= mode < 0.4
+        fro = [f | set(e) for f, e in zip(fro, extras)]
         lo_nw, hi_nw = max(len(f) for f in fro), min(len(o) for o in out)
         if lo_nw > hi_nw or hi_nw < 1:
             continue
-        nw = rng.randint(max(1, lo_nw), hi_nw)
-        full_run(Elist, (flo, fhi, olo, ohi), extra, nw, out, settings[tries % len(settings)])
+        nw = [max(1, lo_nw), hi_nw, rng.randint(max(1, lo_nw), hi_nw)][tries % 3]
+        full_run(Elist, (flo, fhi, olo, ohi), extras, nw, fro, out, settings[tries % len(settings)], as_dict)
         nrand -= 1
-    for m in ("amn", "random", "restart"):
-        if modes.get(m, 0) == 0:
-            raise MachineryError(f"init mode {m} never ran")
-    if not any(len(r["events"]) >= 4 for r in recs) or not any(r["frozen"] and r["events"] for r in recs):
-        raise MachineryError("no multi-iteration run / no run with frozen bands")
-    stv, bad = ftable.validate_records("DisentangleRec.tla", ftable.REC_CFG, recs, "c24")
-    rep.add_tlc("c24_records", stv)
-    rep.add_traces(len(recs))
+    if not rep.violations:
+        for m in ("amn", "random", "restart"):
+            if modes.get(m, 0) == 0:
+                raise MachineryError(f"init mode {m} never ran")
+        for k, v in edge.items():
+            if v == 0:
+                raise MachineryError(f"full runs: input class {k} never occurred")
+        if (hooked and not any(len(r["events"]) >= 4 for r in recs)) or not any(r["capt_rows"] and r["events"] for r in recs):
+            raise MachineryError("no multi-iteration run / no run with frozen bands")
+    if not recs:
+        return rep.finish()
+    # binding self-test: corrupted copies travel in the same batch
+    nreal = len(recs)
+    cand = [r for r in recs if r["events"] and r["capt_rows"]]
+    selftest = {}
+    if cand:
+        b1 = copy.deepcopy(cand[0])
+        b1["frozen"] = [x for x in b1["frozen"] if x != b1["capt_rows"][-1]]
+        b2 = copy.deepcopy(cand[0])
+        b2["events"][-1]["gram"] = 11
+        b3 = copy.deepcopy(cand[0])
+        b3["events"][0]["rank"] -= 1
+        for b, clause in ((b1, "frozen_covers_spec"), (b2, "gauge_orthonormal"), (b3, "gauge_rank")):
+            selftest[len(recs)] = clause
+            recs.append(b)
+    stv, bad = ftable.validate_records("DisentangleRec.tla", ftable.REC_CFG, recs, sc.uniq("c24"))
+    rep.add_tlc("c24_records", dict(stv, distinct=stv["distinct"] - len(selftest), generated=stv["generated"] - 2 * len(selftest)))
+    rep.add_traces(nreal)
+    for i, clause in selftest.items():
+        if clause not in bad.get(i, []):
+            raise MachineryError(f"binding self-test failed: corrupted record accepted ({clause}: {bad.get(i)})")
+    rep.part("binding_selftest", corrupted_records_rejected={str(i - nreal): bad.get(i) for i in selftest})
+    infocount, harness_bad = {}, {}
     for i, clauses in bad.items():
+        if i >= nreal:
+            continue
         r = recs[i]
-        kind = "windows" if any(c in clauses for c in ("frozen_equals_spec", "free_equals_spec", "assert_iff", "never_split", "frozen_in_outer")) else "gauge"
-        rep.violation(f"wannierise:{kind}:recorded:{'+'.join(sorted(clauses))}", dict(record=r, failing_clauses=clauses, unit=UNIT))
+        for c in clauses:
+            if c in INFO_CLAUSES:
+                infocount[c] = infocount.get(c, 0) + 1
+            if c in HARNESS_CLAUSES:
+                harness_bad[c] = harness_bad.get(c, 0) + 1
+        hard = sorted(c for c in clauses if c not in INFO_CLAUSES and c not in HARNESS_CLAUSES)
+        if hard:
+            kind = "windows" if any(c in hard for c in ("frozen_covers_spec", "selected_in_outer", "assert_iff", "frozen_in_outer")) else "gauge"
+            rep.violation(f"wannierise:{kind}:recorded:{'+'.join(hard)}", dict(record=r, failing_clauses=hard, unit=UNIT))
+    if harness_bad:
+        raise MachineryError(f"the harness's inputs / row sets disagree with the specification: {harness_bad}")
     rep.sample({k: v for k, v in recs[0].items()})
     rep.part("numeric_only", what="orthonormal columns, frozen unit vectors in the span, zero rows outside the outer window of every gauge "
-                                  "matrix of the recorded runs (bucketed, limit 1e-8)", records=len(recs), max_residual=maxres, init_modes=modes)
-    # binding self-test
-    cand = [r for r in recs if r["events"] and r["frozen"]]
-    b1 = copy.deepcopy(cand[0])
-    b1["frozen"] = b1["frozen"][:-1]
-    b2 = copy.deepcopy(cand[0])
-    b2["events"][-1]["gram"] = 11
-    b3 = copy.deepcopy(cand[0])
-    b3["events"][0]["rank"] -= 1
-    _, bb = ftable.validate_records("DisentangleRec.tla", ftable.REC_CFG, [b1, b2, b3], "c24_selftest")
-    if "frozen_equals_spec" not in bb.get(0, []) or "gauge_orthonormal" not in bb.get(1, []) or "gauge_rank" not in bb.get(2, []):
-        raise MachineryError(f"binding self-test failed: corrupted records accepted ({bb})")
-    rep.part("binding_selftest", corrupted_records_rejected=bb)
+                                  "matrix of the recorded runs (final v_matrix; initial / per iteration when observable), against the "
+                                  "specification's frozen / outer sets (bucketed, limit 1e-8)",
+             records=nreal, max_residual=maxres, init_modes=modes, input_classes=edge, hooked=hooked,
+             information_only_clauses_failing=infocount)
     return rep.finish()
-
-
-def _select(E, lo, hi, incl, th=3):
-    """harness-side helper only used to pick feasible num_wann for random inputs (the verdict comes from TLC)"""
-    n = len(E)
-    inside = {j for j in range(n) if lo <= E[j] <= hi}
-
-    def multiplet(j):
-        a = j
-        while a > 0 and E[a] - E[a - 1] < th:
-            a -= 1
-        b = j
-        while b < n - 1 and E[b + 1] - E[b] < th:
-            b += 1
-        return set(range(a, b + 1))
-    if incl:
-        return set().union(*[multiplet(j) for j in inside]) if inside else set()
-    return {j for j in inside if multiplet(j) <= inside}
